@@ -454,12 +454,29 @@ package mocker
 //@   assigns everything
 //@   ensures override_consumed: b.pkgName == caller_package()
 //@   panics_only_if bad_instance: true
+// the cache key of an interface variable (fmt.Sprintf of its type string and its address: iface_key, see extern.spec)
+//@ trusted func interfaceKey
+//@   props C07
+//@   pure
+//@   ensures names_it: result == iface_key(iFace)
+//@ extern func (github.com/tencent/goom.Mocker).Canceled
+//@   assigns nothing
+
+// cached_for(m, x): the cached interface mocker m was built for the interface variable x points to
+//@ pure func cached_for(m Mocker, x interface{}) bool = typeof(m) == typeid(*CachedInterfaceMocker) ==> unbox(m, *CachedInterfaceMocker) != nil && alive(unbox(m, *CachedInterfaceMocker))
+//@   | && unbox(m, *CachedInterfaceMocker).DefaultInterfaceMocker != nil && alive(unbox(m, *CachedInterfaceMocker).DefaultInterfaceMocker)
+//@   | && unbox(m, *CachedInterfaceMocker).DefaultInterfaceMocker.iFace == x
+// cache invariant: whatever is cached under the key of a variable was built for that variable
+//@ pure func iface_cache_inv(b *Builder) bool = forall k string :: has(b.mockers, iface_of(k)) ==> cached_for(b.mockers[iface_of(k)], key_var(k))
 //@ func (b *Builder) Interface
-//@   props C12
+//@   props C12 C07
 //@   safety off
-//@   requires receiver: b != nil && b.mockers != nil
+//@   requires receiver: b != nil && b.mockers != nil && iFace != nil
+//@   requires cache: iface_cache_inv(b)
 //@   assigns everything
 //@   ensures override_consumed: b.pkgName == caller_package()
+//@   ensures[C07] mocks_the_variable_it_was_given: result != nil && result.DefaultInterfaceMocker != nil && result.DefaultInterfaceMocker.iFace == iFace
+//@   ensures[C07] cache_kept: iface_cache_inv(b)
 //@   panics_only_if bad_variable: true
 //@ func (b *Builder) ExportFunc
 //@   props C12
